@@ -40,6 +40,7 @@ type c09Case struct {
 	Cuts     []int  `json:"cuts"`     // cut offset within each successive transfer stream
 	EOF      []bool `json:"eof"`      // true: clean end of stream, false: reset
 	Existing bool   `json:"existing"` // a complete file of that name already exists
+	Huge     uint32 `json:"huge,omitempty"` // the data fork header announces this many bytes (2 GiB and more); the connection dies after a few
 	NoResume bool   `json:"noresume"` // ask to resume although nothing was uploaded
 	OwnRoot  bool   `json:"ownroot"`  // the uploading account has its own file root; the server-wide root holds a same-named decoy partial
 	Twice    bool   `json:"twice"`    // two upload requests for the name are granted while it is free; the second transfer starts after the first has published
@@ -194,6 +195,26 @@ func c09Run(w *explore.Worker, c c09Case) {
 				fail("existing-file-overwritten", fmt.Sprintf("%q", got))
 			}
 			w.Outcome("existing refused=" + fmt.Sprint(!ok))
+			return
+		}
+		if c.Huge != 0 {
+			// an upload that announces a data fork of 2 GiB or more and dies after its first bytes: like every cut
+			// upload it leaves the bytes received as a partial file and nothing under the final name
+			refnum, _, ok := request(false)
+			if !ok {
+				w.Outcome("huge refused")
+				return
+			}
+			stream := append(ref.Preamble(refnum, 0), ref.FlatFile(info, data, nil)...)
+			hdr := 16 + ref.FlatFileHeaderLen(info)
+			binary.BigEndian.PutUint32(stream[hdr-4:hdr], c.Huge)
+			conn := wd.DialTransfer("10.0.0.1:2001")
+			conn.Feed(stream)
+			conn.Reset()
+			world.Settle(10 * time.Second)
+			delivered = len(data)
+			checkPartial(fmt.Sprintf("after a cut %d bytes into a data fork announced with %d bytes", len(data), c.Huge))
+			w.Outcome(fmt.Sprintf("huge %x", c.Huge>>28))
 			return
 		}
 		if c.NoResume {
@@ -408,6 +429,7 @@ func c09Cases(thorough bool) []c09Case {
 				}
 			}
 		}
+		cs = append(cs, c09Case{Size: sz, Huge: 0x80000000}, c09Case{Size: sz, Huge: 0xfffffff0})
 		cs = append(cs, c09Case{Size: sz, Existing: true}, c09Case{Size: sz, NoResume: true}, c09Case{Size: sz, Twice: true}, c09Case{Size: sz, Twice: true, Rsrc: true, Preserve: true})
 	}
 	return cs
